@@ -394,7 +394,7 @@ class MeasuredValue(ExperimentalValue):
     def value(self, value: Real):
         if not isinstance(value, Real):
             raise TypeError("Cannot assign a {} to the value!".format(type(value).__name__))
-        self._value = value
+        self._value = float(value)
 
     @property
     def error(self):
@@ -406,7 +406,7 @@ class MeasuredValue(ExperimentalValue):
             raise TypeError("Cannot assign a {} to the error!".format(type(error).__name__))
         if error < 0:
             raise ValueError("The error must be a positive real number!")
-        self._error = error
+        self._error = float(error)
 
     @property
     def relative_error(self):
@@ -600,7 +600,7 @@ class RepeatedlyMeasuredValue(MeasuredValue):
             "You are trying to override the value calculated from an array of repeated "
             "measurements. This value is now considered a single Measurement.")
         self.__class__ = MeasuredValue
-        self._value = new_value
+        self._value = float(new_value)
 
     @property
     def raw_data(self):
